@@ -130,11 +130,11 @@ claimed["C02"] = dict(
    technique="static order-class dataflow with map-fill idiom recognition and output contracts; guard rule on fetch sites (custom analyzer)")
 
 claimed["C16"] = dict(
-   text="Thin claim. The numerical identities of the 64-bit position arithmetic are NOT decided. Four structural necessary conditions are decided for all inputs: the "
+   text="Thin claim. The numerical identities of the 64-bit position arithmetic are NOT decided. Five structural necessary conditions are decided for all inputs: the "
         "call closure of the exported position functions computes with integers only (no floating-point value, no call into package math other than math/bits - float64 "
         "cannot represent every position or leaf count at heights near 63), and in ProofPositions every step that replaces a working target by its parent also appends "
         "to the list of computable positions on every path to the next iteration; every left shift by a variable amount in that closure is computed in a 64-bit type (forests have up to 63 rows); "
-        "and a leaf count converted to a signed integer is only compared, never an operand of arithmetic.",
+        "a leaf count converted to a signed integer is only compared, never an operand of arithmetic; and a row is compared with a forest height only inclusively (the top row is a row).",
    ref="DESIGN.md 5/C16",
    technique="static type/effect lint over the call closure (no float values, no math calls) and a must-pass-through rule on go/ssa (custom analyzer)")
 
